@@ -52,7 +52,7 @@ FINAL ANSWER: a short list, one line per delivered change: id, file/function cha
 
 TWINS = '''
 WHAT TO PRODUCE: 4 different refactorings of the anchored code under {wt}/behave/ (ids {pid}-t{k1} .. {pid}-t{k4}), each of which
-  (a) is an edit a maintainer could plausibly make for readability, style, modernisation or modest efficiency. THIS IS A SECOND ROUND: the first round already used the small classics (renamed locals, one helper extracted, a loop turned into a comprehension / any() / all(), an if-chain into early returns, a constant hoisted). Go further, while staying strictly equivalent: restructure control flow (guard clauses, merged or split branches, a while-loop as a for-loop or the reverse, a flag variable removed, De Morgan), move logic between a method and a helper / staticmethod / property / base class, replace a hand-written loop by itertools / functools / operator / collections idioms (chain, islice, partial, itemgetter, defaultdict, dict.setdefault, dict.get with default, enumerate, zip, reversed, sorted with key), replace string building (% vs .format vs join - keep py2/py3 compatible style of the file), replace a dict/tuple table by equivalent code or code by a table, introduce a small private class or namedtuple for a group of locals, try/finally vs a context manager, cache a repeatedly evaluated PURE expression in a local, reorder independent statements, replace isinstance chains, inline a one-use helper, turn a closure into a bound method or functools.partial; ALSO (third round and later): for-loops rewritten as while-loops with an explicit index or iterator and the reverse, try/except/else restructured, conditional expressions vs if-statements, chained comparisons, set operations instead of loops with membership tests, sorted()/reversed()/min()/max() with key functions, str.partition / rpartition / startswith-tuple instead of split and index arithmetic, dict comprehensions, zip/enumerate instead of index arithmetic, a small class (or closure) replacing a group of functions sharing state, a method moved to a mixin/base class or turned into a property, default-argument sentinels, collections.OrderedDict/defaultdict/Counter/deque, a local generator function consumed by a loop, loop fusion/fission, hoisting loop-invariant PURE computations; ALSO (fourth round): for/else and while/else, slicing and negative indices instead of loops, tuple unpacking and starred assignment, str.format / %-formatting / join interchange where the result is identical, `x if c else y` chains vs dict lookup, try/except narrowed to the statement that can raise (same exceptions!), a @staticmethod turned into a module function (or back), a @property introduced for a repeated expression, a helper decorated with functools.wraps, functools.reduce / any / all / sum / min / max with generator arguments, sorted(..., key=...) + itertools.groupby on sorted data, collections.ChainMap / Counter, dict views and set algebra, early `return` from nested loops via a helper function, replacing recursion by an explicit stack (or the reverse), local class for a small state machine; ALSO (fifth round): a callable class (`__call__`) replacing a nested function, collections.deque used as an explicit work queue, itertools.starmap / accumulate / zip_longest / compress / count / repeat, zip(*rows) transposition, `dict.update` / dict-merge idioms, `getattr(obj, name, default)` instead of hasattr+attribute, `isinstance(x, (A, B))` merged or split, `sorted(..., reverse=True)` vs reversed(sorted(...)) where ties cannot differ, contextlib.closing / ExitStack-free contextmanager helpers, functools.total_ordering-free comparison helpers, a property with a setter replacing a pair of methods, `%`-formatting with a dict, `str.splitlines` / `str.join` over a generator, an accumulator loop turned into sum()/"".join()/list.extend, boolean algebra simplifications (absorption, distribution, double negation), splitting one long method into a pipeline of private methods that pass an explicit state object, merging two adjacent loops over the same sequence when the bodies are independent, replacing a mutable default-like `x = x or []` idiom by an explicit `if x is None` ONLY where x can never be another falsy value;
+  (a) is an edit a maintainer could plausibly make for readability, style, modernisation or modest efficiency. THIS IS A SECOND ROUND: the first round already used the small classics (renamed locals, one helper extracted, a loop turned into a comprehension / any() / all(), an if-chain into early returns, a constant hoisted). Go further, while staying strictly equivalent: restructure control flow (guard clauses, merged or split branches, a while-loop as a for-loop or the reverse, a flag variable removed, De Morgan), move logic between a method and a helper / staticmethod / property / base class, replace a hand-written loop by itertools / functools / operator / collections idioms (chain, islice, partial, itemgetter, defaultdict, dict.setdefault, dict.get with default, enumerate, zip, reversed, sorted with key), replace string building (% vs .format vs join - keep py2/py3 compatible style of the file), replace a dict/tuple table by equivalent code or code by a table, introduce a small private class or namedtuple for a group of locals, try/finally vs a context manager, cache a repeatedly evaluated PURE expression in a local, reorder independent statements, replace isinstance chains, inline a one-use helper, turn a closure into a bound method or functools.partial; ALSO (third round and later): for-loops rewritten as while-loops with an explicit index or iterator and the reverse, try/except/else restructured, conditional expressions vs if-statements, chained comparisons, set operations instead of loops with membership tests, sorted()/reversed()/min()/max() with key functions, str.partition / rpartition / startswith-tuple instead of split and index arithmetic, dict comprehensions, zip/enumerate instead of index arithmetic, a small class (or closure) replacing a group of functions sharing state, a method moved to a mixin/base class or turned into a property, default-argument sentinels, collections.OrderedDict/defaultdict/Counter/deque, a local generator function consumed by a loop, loop fusion/fission, hoisting loop-invariant PURE computations; ALSO (fourth round): for/else and while/else, slicing and negative indices instead of loops, tuple unpacking and starred assignment, str.format / %-formatting / join interchange where the result is identical, `x if c else y` chains vs dict lookup, try/except narrowed to the statement that can raise (same exceptions!), a @staticmethod turned into a module function (or back), a @property introduced for a repeated expression, a helper decorated with functools.wraps, functools.reduce / any / all / sum / min / max with generator arguments, sorted(..., key=...) + itertools.groupby on sorted data, collections.ChainMap / Counter, dict views and set algebra, early `return` from nested loops via a helper function, replacing recursion by an explicit stack (or the reverse), local class for a small state machine; ALSO (fifth round): a callable class (`__call__`) replacing a nested function, collections.deque used as an explicit work queue, itertools.starmap / accumulate / zip_longest / compress / count / repeat, zip(*rows) transposition, `dict.update` / dict-merge idioms, `getattr(obj, name, default)` instead of hasattr+attribute, `isinstance(x, (A, B))` merged or split, `sorted(..., reverse=True)` vs reversed(sorted(...)) where ties cannot differ, contextlib.closing / ExitStack-free contextmanager helpers, functools.total_ordering-free comparison helpers, a property with a setter replacing a pair of methods, `%`-formatting with a dict, `str.splitlines` / `str.join` over a generator, an accumulator loop turned into sum()/"".join()/list.extend, boolean algebra simplifications (absorption, distribution, double negation), splitting one long method into a pipeline of private methods that pass an explicit state object, merging two adjacent loops over the same sequence when the bodies are independent, replacing a mutable default-like `x = x or []` idiom by an explicit `if x is None` ONLY where x can never be another falsy value; ALSO (sixth round): renaming PRIVATE helpers / locals / private attributes consistently, moving a private helper function to another module of the package and importing it back, turning a module-level helper into a (static/class) method or the reverse, alternative constructors (@classmethod) replacing repeated construction code, `__iter__` written as a generator, a decorator factored out of repeated pre/post code, `operator.itemgetter` / `attrgetter` with several keys, `dict.pop(key, default)` / `dict.setdefault` idioms, `contextlib.contextmanager` helpers wrapping try/finally pairs, `six`-compatible idioms replaced by equivalent plain ones that behave the same on Python 3 AND keep Python 2 syntax valid, `enumerate`/`zip` unrolled or introduced, string predicates (`str.startswith` with tuples, `in` on tuples instead of or-chains), hoisting a repeated attribute chain into a local when nothing in between can change it, replacing `len(x) == 0` / `not len(x)` by `not x` only where x is a real sequence, `try/except KeyError` vs `in`-test plus lookup where no other KeyError can occur, argument-default clean-ups that keep every call site's meaning;
   (b) DOES NOT CHANGE OBSERVABLE BEHAVIOUR for any input: same results, same exceptions (types and messages), same calls to user hooks/formatters/reporters in the same order, same mutations of shared objects, same laziness where laziness is observable. Be careful and conservative: if you are not sure an edit is behaviour-preserving, do not use it;
   (c) keeps the project's pinned test suite result exactly as before. Run it from the worktree:
 ''' + SUITE + '''
